@@ -19,6 +19,7 @@ sequences the theorems quantify over.
 import A10Verif.Lemmas.OpInv
 import A10Verif.Model.Life
 import A10Verif.Lemmas.LifeRefine
+import A10Verif.Props.C04
 
 namespace A10.OpSys
 open A10
@@ -177,3 +178,77 @@ theorem C06_system_ring_drop_reclaims {s : Sys} (hr : Reachable s) (hl : s.ringL
   life_ring_drop_reclaims hr hl
 
 end A10.Life
+
+/-! ### The cancel request under contention
+
+"Whenever the submission queue has room" is decided by the queue, not by who holds the
+submission lock: the cancel request of a dropped operation goes through `Submissions::add`
+(`Submissions::cancel`, sq.rs), whose micro-step model is `Model/SqRing.lean`. -/
+
+namespace A10.SqRing
+open A10
+
+/-- A submitter (here: the cancel request of a dropped operation) that arrives at the
+submission lock while another thread holds it waits — its step leaves everything as it is
+("spin") — and one that finds the lock free takes it and goes on to the locked check. It is
+never turned away at the lock: the only way to `QueueFull` is a fullness check
+(`C04_precheck`, `C04_full_means_full`: exactly when the queue is full). Any state. -/
+theorem C06_cancel_request_waits_for_lock (s : St) (i : Nat) (t : Thr)
+    (hti : s.thr[i]? = some t) (hpc : t.pc = .a3) :
+    (s.lock ≠ none → stepThr s i = (s, "spin")) ∧
+    (s.lock = none → pcOf (stepThr s i).1 i = some .a4 ∧ (stepThr s i).1.lock = some i) ∧
+    pcOf (stepThr s i).1 i ≠ some .full := by
+  refine ⟨?_, ?_, ?_⟩
+  · intro hl
+    cases hlk : s.lock with
+    | none => exact absurd hlk hl
+    | some j => simp [stepThr, hti, hpc, hlk]
+  · intro hl
+    simp [stepThr, hti, hpc, hl, pcOf, setThr, get_set_thr hti]
+  · cases hlk : s.lock with
+    | none => simp [stepThr, hti, hpc, hlk, pcOf, setThr, get_set_thr hti]
+    | some j => simp [stepThr, hti, hpc, hlk, pcOf]
+
+/-- A call through `Submissions::cancel` starts at the lock (`startPc true`, fix e17b949) and
+its next step after getting the lock is the locked head load: on its way to the locked check —
+the only place where it can be answered `QueueFull`, and there exactly when the queue is full
+(`C04_full_means_full`) — nothing can turn it away. -/
+theorem C06_cancel_only_locked_check (s : St) (i : Nat) (t : Thr)
+    (hti : s.thr[i]? = some t) (hpc : t.pc = startPc true ∨ t.pc = .a4) :
+    pcOf (stepThr s i).1 i ≠ some .full ∧
+    (t.pc = .a4 → pcOf (stepThr s i).1 i = some (.a5 (head32 s))) := by
+  rcases hpc with hpc | hpc
+  · refine ⟨(C06_cancel_request_waits_for_lock s i t hti hpc).2.2, ?_⟩
+    intro h4; rw [hpc] at h4; cases h4
+  · refine ⟨?_, fun _ => ?_⟩ <;>
+      simp [stepThr, hti, hpc, pcOf, setThr, get_set_thr hti]
+
+/-- Why the fix: a call that goes through the unlocked pre-check (`startPc false`, all of
+`Submissions::add`'s other callers — and `cancel` before e17b949) can be answered `QueueFull`
+although the queue (2 slots) never held more than one entry: thread 1 loads the head, thread 0
+publishes an entry, the kernel consumes it, thread 0 publishes another one, thread 1 loads the
+tail — two ahead of its stale head. -/
+def staleRun : List Mv :=
+  [.thr 1] ++ List.replicate 8 (.thr 0) ++ [.kernel, .again 0 3] ++ List.replicate 8 (.thr 0) ++
+    [.thr 1]
+
+theorem C06_precheck_refuses_with_room :
+    (∀ k, k ≤ staleRun.length →
+      (runMv (init 2 0 2) (staleRun.take k)).T - (runMv (init 2 0 2) (staleRun.take k)).H < 2) ∧
+    pcOf (runMv (init 2 0 2) staleRun) 1 = some .full ∧
+    (runMv (init 2 0 2) staleRun).accepted = [0, 3] := by
+  decide
+
+/-- Non-vacuity, and the shape of the seeded change C06g: two submitters, the first holds the
+lock (past its locked head load), the second arrives: it spins; after the first published its
+entry the second gets the lock and publishes too — both entries are accepted (queue of 4). -/
+example :
+    let s := runMv (init 4 0 2) [.thr 0, .thr 0, .thr 0, .thr 0, .thr 1, .thr 1]
+    s.lock = some 0 ∧ pcOf s 1 = some .a3 ∧ (stepThr s 1).2 = "spin" ∧
+    pcOf (stepThr s 1).1 1 = some .a3 ∧
+    (runMv s [.thr 1, .thr 0, .thr 0, .thr 0, .thr 0, .thr 1, .thr 1, .thr 1, .thr 1, .thr 1, .thr 1]).accepted
+      = [0, 1] := by
+  decide
+
+end A10.SqRing
+
